@@ -115,6 +115,7 @@ def install(E):
     I[ZV + "AdvanceNow"] = v_advnow
 
     I[ZV + "Native"] = lambda E, name, args, ins: FALSE
+    I[ZV + "Obligation"] = lambda E, name, args, ins: E.str_const("")
 
     def v_mapextra(E, name, args, ins):
         (c, tid, p), = [a for a in args[0].alts if a[1] is not None]
